@@ -607,6 +607,12 @@ class IncrementalExecutor(Executor[DeliveryGroupMap]):
         item_type: GraphQLOutputType,
     ) -> bool:
         """Stream the remaining list items via an item stream."""
+        if self.collected_errors.has_nulled_position(path):
+            # The list is being completed in the background after a sibling has
+            # already nulled its position: a stream started now would never be
+            # delivered or aborted and its source never closed, so the list is
+            # completed as a whole instead.
+            return False
         queue = self.build_stream_item_queue(
             index,
             path,
